@@ -123,6 +123,18 @@ TForeign(E) ==
   /\ E.view.beyond = <<>> /\ E.view.gerr = <<>>
   /\ UNCHANGED <<truth, cores, stack>>
 
+\* C08: many honest block proofs applied to a replica without logging each one: every index of
+\* the listed ranges has been fetched (none was refused); the projection afterwards is checked
+RECURSIVE AddRanges(_, _)
+AddRanges(h, rs) == IF rs = <<>> THEN h ELSE AddRanges(IvAdd(h, rs[1][1], rs[1][2]), Tail(rs))
+TBulk(E) ==
+  /\ E.e = "bulk"
+  /\ E.failed = 0
+  /\ \A k \in 1..Len(E.ranges) : E.ranges[k][2] <= cores[E.c].len
+  /\ cores' = [cores EXCEPT ![E.c].held = AddRanges(@, E.ranges)]
+  /\ UNCHANGED <<truth, stack>>
+  /\ ViewOK(E.c, E.view)'
+
 \* C14: the run of the preceding history under another storage backend / node-cache
 \* configuration produced, line for line, the same results, events, projections and store
 \* digests as the baseline run (which is the one validated above); HcAbs!Outcome is a function
@@ -180,7 +192,7 @@ TNext ==
   /\ \E E \in {Rec[l]} :
        \/ TReset(E) \/ TCreate(E) \/ TOp(E) \/ TCrashOpen(E) \/ TIoErr(E)
        \/ TCrashCreate(E) \/ TPush(E) \/ TPop(E)
-       \/ TForged(E) \/ TRawReq(E) \/ TSynced(E) \/ TForeign(E) \/ TConfig(E)
+       \/ TForged(E) \/ TRawReq(E) \/ TSynced(E) \/ TForeign(E) \/ TConfig(E) \/ TBulk(E)
 
 TInit == truth = Empty /\ cores = Empty /\ stack = <<>> /\ l = 1
 
